@@ -124,9 +124,9 @@ fn biased_graph(max_rules: usize) -> impl Strategy<Value = GraphSpec>
         {
             g.n_leaves = 2;
             // different contents to start with, so that a swap changes something
-            if g.leaf_contents.len() >= 2 && g.leaf_contents[0] % 5 == g.leaf_contents[1] % 5
+            if g.leaf_contents.len() >= 2 && g.leaf_contents[0] % gen::N_CONTENTS == g.leaf_contents[1] % gen::N_CONTENTS
             {
-                g.leaf_contents[1] = (g.leaf_contents[0] + 1) % 5;
+                g.leaf_contents[1] = (g.leaf_contents[0] + 1) % gen::N_CONTENTS;
             }
         }
         for (i, r) in g.rules.iter_mut().enumerate()
@@ -160,7 +160,7 @@ fn ops_biased(max_ops: usize) -> impl Strategy<Value = Vec<Op>>
             v.extend(tail);
             v
         }),
-        1 => (any::<u16>(), 0u8..5, gen::ops(mix, max_ops / 2)).prop_map(|(leaf, content, tail)|
+        1 => (any::<u16>(), 0u8..gen::N_CONTENTS, gen::ops(mix, max_ops / 2)).prop_map(|(leaf, content, tail)|
         {
             let mut v = vec![Op::Build { goal: None }, Op::Edit { leaf, content }, Op::Build { goal: None }, Op::Clean { goal: None }, Op::Revert { leaf }, Op::Build { goal: None }];
             v.extend(tail);
